@@ -324,6 +324,10 @@ func parseIndex(data []byte) ([]indexEntry, error) {
 		return nil, fmt.Errorf("invalid index magic")
 	}
 	entryCount := int(binary.BigEndian.Uint32(data[6:10]))
+	// Each entry is 12 bytes (int64 offset + int32 position).
+	if entryCount < 0 || int64(entryCount)*12 > int64(len(data)-16) {
+		return nil, fmt.Errorf("index entry out of bounds")
+	}
 	entries := make([]indexEntry, 0, entryCount)
 	offset := 16
 	for i := 0; i < entryCount; i++ {
